@@ -411,7 +411,13 @@ func (r *rig) run(c Case) Obs {
 	r.shared.Reset()
 	var o Obs
 	switch c.Entry {
-	case "pin", "shortcut", "raise-min":
+	case "pin", "shortcut", "raise-min", "pin-read-fault":
+		if c.Entry == "pin-read-fault" {
+			// the read of the existing entry fails (once) with an error that
+			// is not "not found"
+			r.shared.Store.FailGets(1)
+			defer r.shared.Store.FailGets(0)
+		}
 		opts := api.PinOptions{Name: "new", ReplicationFactorMin: c.Min, ReplicationFactorMax: c.Max, UserAllocations: r.peers(c.Prio)}
 		if c.Entry == "shortcut" || c.Entry == "raise-min" {
 			opts.Name = "same"
